@@ -1,6 +1,6 @@
-\* C02 leg A, 3 counter replicas (nested adjust dd(dd(r1,r2),r3)): <= 2 samples each on a 3-point
-\* grid, start {0,2}, increments {0,5} (19 series per replica, 6 859 inputs), 1 seek target.
-\* Leg B gets every 2nd input.
+\* C02 leg A quick, 3 counter replicas (nested adjust dd(dd(r1,r2),r3)): <= 2 samples each on a
+\* 3-point grid, start {0,2}, increment 5 (13 series per replica, 2 197 inputs), readers with at
+\* most one Seek(1). Leg B gets every input.
 SPECIFICATION Spec
 CONSTANTS InitPen = 5
           Grid = {0, 1, 7}
@@ -8,9 +8,9 @@ CONSTANTS InitPen = 5
           MaxLen = 2
           Ctr = TRUE
           Starts = {0, 2}
-          Incs = {0, 5}
+          Incs = {5}
           Targets = {1}
-          EmitMod = 2
+          EmitMod = 1
           MaxSeeks = 1
           Kinds = {"f"}
 INVARIANTS C02_CounterNeverDecreases C01_StrictlyIncreasing C01_SeekIsSuffix C01_FollowsFullStream
